@@ -3,7 +3,9 @@ and monitor: harness/exec_props.py (monitor family 1 of Exec/ExecTrace.v)."""
 from harness import exec_props as X
 
 BIAS = {}
-TINY = None
+TINY = {"cfgs": [{"throttle": 0, "attempts": 1, "dry": False}, {"throttle": 1, "attempts": 1, "dry": False}],
+        "depth_quick": 3, "depth_thorough": 4, "graphs_quick": 3, "enum": {},
+        "limit_quick": 1500, "limit_thorough": 15000}
 
 
 def run(ck):
